@@ -98,10 +98,11 @@ func (k *vKey) publicEncodings() map[string][]byte {
 // ------------------------------------------------------------------ raw JWS construction
 
 type vSig struct {
-	hdr     map[string]interface{} // protected header exactly as serialised (alg included)
-	signAlg jwa.SignatureAlgorithm // algorithm actually used ("" = none: empty signature)
-	signKey interface{}
-	unprot  map[string]interface{}
+	hdr      map[string]interface{} // protected header exactly as serialised (alg included)
+	signAlg  jwa.SignatureAlgorithm // algorithm actually used ("" = none: empty signature)
+	signKey  interface{}
+	unprot   map[string]interface{}
+	forceSig string // when set: the signature value to serialise (not computed)
 	// filled by sign()
 	protB64 string
 	sigB64  string
@@ -112,6 +113,10 @@ func vJSON(v interface{}) []byte { b, _ := json.Marshal(v); return b }
 func (s *vSig) sign(payloadB64 string) {
 	s.protB64 = vEnc.EncodeToString(vJSON(s.hdr))
 	s.sigB64 = ""
+	if s.forceSig != "" {
+		s.sigB64 = s.forceSig
+		return
+	}
 	if s.signAlg == "" {
 		return
 	}
@@ -279,6 +284,22 @@ func vHostile(r *rand.Rand, b vBase, nFlips int) []vVariant {
 	none.hdr["alg"] = "none"
 	none.signAlg = ""
 	add("json-two-sigs-valid-none", "multi-sig", "signer", vGeneralJSON([]*vSig{b.sigFor(b.signer), none}, b.payload, false), natural)
+	// the first signature's protected header is the victim's with fields the victim never signed (other lc / prevs / extra
+	// member) and a garbage value; the second is the genuine one: a consumer that reads signature #0's header while
+	// the library is satisfied by ANY verifying signature takes unsigned headers for signed
+	{
+		forged := b.sigFor(b.signer)
+		forged.hdr["lc"] = 4242
+		forged.hdr["prevs"] = []string{strings.Repeat("ab", 32)}
+		forged.hdr["x-forged"] = true
+		forged.forceSig = vEnc.EncodeToString([]byte(strings.Repeat("garbage!", 8)))
+		add("json-two-sigs-forgedhdr-valid", "multi-sig", "signer", vGeneralJSON([]*vSig{forged, b.sigFor(b.signer)}, b.payload, false), natural)
+		forged2 := b.sigFor(b.signer)
+		forged2.hdr["x-forged"] = true
+		forged2.forceSig = ""
+		forged2.signAlg = ""
+		add("json-two-sigs-forgedhdr-emptysig-valid", "multi-sig", "signer", vGeneralJSON([]*vSig{forged2, b.sigFor(b.signer)}, b.payload, false), natural)
+	}
 	add("json-two-sigs-attacker-attacker", "multi-sig", "attacker", vGeneralJSON([]*vSig{b.sigFor(b.attacker), b.sigFor(b.attacker)}, b.payload, false), string(b.attacker.alg))
 	add("json-two-sigs-valid-attacker-dots", "multi-sig", "signer",
 		strings.Replace(vGeneralJSON([]*vSig{b.sigFor(b.signer), b.sigFor(b.attacker)}, b.payload, false), "{", `{"x":"..",`, 1), natural)
